@@ -24,17 +24,36 @@ def bytesStr (bs : Bytes) : String :=
   | some s => s
   | none => "?"
 
+/-- the deterministic resource name of `n` bytes that the token `R<n>` stands for (keeps op files small) -/
+def longName (n : Nat) : Bytes := (List.range n).map fun i => 97 + (i + i / 26) % 26
+
+/-- a resource token: `R<n>` = `longName n`, anything else literally -/
+def resOfTok (r : String) : Bytes :=
+  if r.startsWith "R" then
+    match (r.drop 1).toString.toNat? with
+    | some n => longName n
+    | none => strBytes r
+  else strBytes r
+
+def nameHash (bs : Bytes) : Nat := bs.foldl (fun h b => (h * 31 + b) % 4294967296) 0
+
+/-- canonical printing of a resource name: long names as `R<n>` (if it is that name) or `X<len>:<hash>` -/
+def showRes (bs : Bytes) : String :=
+  if bs.length > 64 then
+    (if bs == longName bs.length then s!"R{bs.length}" else s!"X{bs.length}:{nameHash bs}")
+  else bytesStr bs
+
 def parseItem? (tok : String) : Option Item :=
   match tok.splitOn ":" with
   | [r, p, b, c, e, rt, oc, cc, cl] =>
     match p.toNat?, b.toNat?, c.toNat?, e.toNat?, rt.toNat?, oc.toNat?, cc.toNat?, cl.toInt? with
     | some p, some b, some c, some e, some rt, some oc, some cc, some cl =>
-      some { ts := 0, res := strBytes r, pass := p, block := b, complete := c, error := e, rt := rt, occ := oc, conc := cc, cls := cl }
+      some { ts := 0, res := resOfTok r, pass := p, block := b, complete := c, error := e, rt := rt, occ := oc, conc := cc, cls := cl }
     | _, _, _, _, _, _, _, _ => none
   | _ => none
 
 def showItem (it : Item) : String :=
-  s!"{it.ts}:{bytesStr it.res}:{it.pass}:{it.block}:{it.complete}:{it.error}:{it.rt}:{it.occ}:{it.conc}:{it.cls}"
+  s!"{it.ts}:{showRes it.res}:{it.pass}:{it.block}:{it.complete}:{it.error}:{it.rt}:{it.occ}:{it.conc}:{it.cls}"
 
 def showItems (xs : List Item) : String := showList (xs.map showItem)
 
@@ -166,7 +185,7 @@ def step (spec : Bool) (s : St) (ts : List String) (_ : String) : St × Option S
       | none => (s, some "bad-op")
   | ["log.find", sid, b, e, r] => match s.w, b.toNat?, e.toNat? with
       | some w, some b, some e =>
-        let res := if r == "*" then [] else strBytes r
+        let res := if r == "*" then [] else resOfTok r
         let c := getCache s sid
         let (c', xs) := find w.files c b e res
         let s' := setCache s sid c'
